@@ -62,13 +62,19 @@ NameSeqs == { <<"<start>", "<A>", "<B>">>, <<"<start>", "<langle>", "<A>">>, <<"
 Shapes == { <<>>, <<TRUE>>, <<FALSE>>, <<TRUE, FALSE>>, <<FALSE, TRUE>>, <<FALSE, FALSE>>, <<TRUE, FALSE, TRUE>>,
             <<FALSE, TRUE, FALSE>>, <<TRUE, FALSE, FALSE>>, <<FALSE, FALSE, TRUE>> }
 TextOfItems(its) == FlattenSeq(its)
-RandomText(n) == TextOfItems([j \in 1..n |-> RandomElement(Items)])
-RandomSym(isT, names) == IF isT THEN SymT(RandomText(RandomElement({1, 1, 2, 3}))) ELSE SymNT(RandomElement(names))
+(* '<' is drawn more often than the other items: it is the character the   *)
+(* language clause is about                                                *)
+RandomItem(k) == IF RandomElement(1..5) = 1 THEN <<Lt>> ELSE RandomElement(Items)
+RandomText(n) == TextOfItems([j \in 1..n |-> RandomItem(j)])
+RandomSym(isT, names) == IF isT THEN SymT(RandomText(RandomElement(1..3))) ELSE SymNT(RandomElement(names))
 AltOfShape(sh, names) == IF sh = <<>> THEN <<>> ELSE [j \in 1..Len(sh) |-> RandomSym(sh[j], names)]
-RandomAlts(n, names) == [a \in 1..n |-> AltOfShape(RandomElement(Shapes), names)]
-GrammarOver(names) == [s \in names |-> RandomAlts(RandomElement(1..3), names)]
+(* anchored: the first alternative of every nonterminal has no nonterminal, *)
+(* so every nonterminal derives strings                                     *)
+RandomAlts(n, names, anchored) ==
+  [a \in 1..n |-> AltOfShape(IF anchored /\ a = 1 THEN RandomElement({ <<>>, <<TRUE>> }) ELSE RandomElement(Shapes), names)]
+GrammarOver(names, anchored) == [s \in names |-> RandomAlts(RandomElement(1..3), names, anchored)]
 PrefixNames(ns, n) == { ns[j] : j \in 1..n }
-RandomGrammar(k) == GrammarOver(PrefixNames(RandomElement(NameSeqs), RandomElement(1..3)))
+RandomGrammar(k) == GrammarOver(PrefixNames(RandomElement(NameSeqs), RandomElement(1..3)), k % 4 # 0)
 FRandom == { g \in { RandomGrammar(k) : k \in 1..NRandom } : Representable(g) }
 
 VARIABLES done, i
@@ -107,6 +113,6 @@ Verdict(c) ==
 
 Judged == i >= 1 => LET c == Data.cases[i]
                         v == Verdict(c)
-                    IN PrintT(<<"CASE", c.idx, v[1], v[2], v[3], v[4], HasLt(c.g), c.res = "ok" /\ SameGrammar(c.g, c.g2)>>)
+                    IN PrintT(<<"CASE", c.idx, v[1], v[2], v[3], v[4], HasLt(c.g), c.res = "ok" /\ SameGrammar(c.g, c.g2), AllReachable(c.g)>>)
 Count == i = Len(Data.cases) => PrintT(<<"DONE", Len(Data.cases)>>)
 =============================================================================
